@@ -9,6 +9,7 @@ from ..core import call_watchdog
 from ..ref import Graph
 
 LEVEL = "exploration"
+TECHNIQUE = 'runtime monitoring: statistical monitor (pooled Pearson chi-square against the enumerated spanning trees at a 1e-9 tail; per-edge inclusion frequencies against effective resistances on larger grids) plus an online trace checker replaying every random decision of gen_wilson in a loop-erased-random-walk reference model'
 RULE = ("statistical layer: N = 400*k (quick) / 4000*k (thorough) draws of gen_wilson on grids whose k spanning trees are enumerated "
         "by the harness (2x2:4, 2x3/3x2:15, 2x4/4x2:56, 3x3:192; thorough also 3x4:2415, cross-checked with Kirchhoff's "
         "determinant), numpy's global RNG seeded per block from VERIF_SEED and every 4th block entered with an already-consumed "
